@@ -13,7 +13,7 @@ import Duckling.Lemmas.Simple
                                 the same lines that the one-argument-per-line spelling emits (`plain_inline`);
   * `C11_enter_count`          `$ENTER n` emits `n` ENTER lines (none for n ≤ 0); `C11_whitespace_count` WHITESPACE n emits n empty
                                 lines; `C11_whitespace_range` its hook accepts exactly 0 ≤ n < 100;
-  * `C11_dollar`               `$CMD expr` emits `CMD v` with v the printed value of expr (for the plain class; `C16_plain_dollar`).
+  * (`C16_plain_dollar`)       `$CMD expr` emits `CMD v` with v the printed value of expr (for the plain class; `C16_plain_dollar`).
   Known finding D18 (grouped DEFAULT_DELAY evaluates all arguments before applying any) is the reason the
   group/expansion equivalence is stated for commands whose execution does not change what later arguments
   evaluate to.  The verbatim (triple-quote) form is a property of the indentation parser: see C03.
